@@ -36,24 +36,43 @@ extern struct id_state ID;
 /* bounded probe-coverage group (C14): every slot but id_free_slot is permanently reserved, id_free_slot is not stolen */
 extern _Bool id_cover_mode;
 extern size_t id_free_slot;
+#ifdef VERIF_ID_CONCRETE
+/* bounded stand-ins with a CONCRETE capacity VERIF_K: the flag array is the real array of the extracted text */
+extern atomic_b *id_vec_base;   /* set by the harness to &_id_vec[0] of the extracted text */
+#define ID_CAP ((size_t)VERIF_K)
+#else
 extern atomic_b *_id_vec;
 extern const size_t kMaxThreadNum;
+#define ID_CAP kMaxThreadNum
+#endif
 
 #pragma CPROVER check push
 #pragma CPROVER check disable "unsigned-overflow"
 #pragma CPROVER check disable "conversion"
 #pragma CPROVER check disable "pointer-overflow"
 
-#define ID_INV (kMaxThreadNum >= 1 && ID.other_id < kMaxThreadNum && (!ID.own || (ID.my_id < kMaxThreadNum && ID.my_id != ID.other_id)) && (!ID.my_gen_alive || ID.own) && ID.my_gen_alive == (ID.my_owners > 0) && ID.my_owners < 8)
+#define ID_INV (ID_CAP >= 1 && ID.other_id < ID_CAP && (!ID.own || (ID.my_id < ID_CAP && ID.my_id != ID.other_id)) && (!ID.my_gen_alive || ID.own) && ID.my_gen_alive == (ID.my_owners > 0) && ID.my_owners < 8)
 
+#ifdef VERIF_ID_CONCRETE
+static inline size_t id_index(const atomic_b *a)
+{
+  /* the real array of the extracted text (CBMC's own bounds and pointer checks guard the access itself) */
+  __CPROVER_assert(__CPROVER_same_object(a, id_vec_base), "[C05][C14][safety] flag access inside the id array");
+  size_t i = ((size_t)__CPROVER_POINTER_OFFSET(a) - (size_t)__CPROVER_POINTER_OFFSET(id_vec_base)) / sizeof(atomic_b);
+  __CPROVER_assert(i < ID_CAP, "[C05][C14][safety] flag index below the capacity");
+  return i;
+}
+#else
 static inline size_t id_index(const atomic_b *a)
 {
   __CPROVER_assert(__CPROVER_same_object(a, _id_vec), "[C05][C14][safety] flag access inside the id array");
   size_t off = (size_t)__CPROVER_POINTER_OFFSET(a) - (size_t)__CPROVER_POINTER_OFFSET(_id_vec);
   size_t i = off / sizeof(atomic_b);
-  __CPROVER_assert(i < kMaxThreadNum, "[C05][C14][safety] flag index below the capacity");
+  __CPROVER_assert(i < ID_CAP, "[C05][C14][safety] flag index below the capacity");
   return i;
 }
+
+#endif
 
 /* RELY for one cell */
 static inline void id_env_cell(atomic_b *a, size_t i)
